@@ -39,6 +39,15 @@ void on_release(void *p, size_t size, void *ud) {
 
 std::vector<uint8_t> gen_bytes(uint64_t seed, size_t n) {
     std::vector<uint8_t> v(n);
+    if (n > (1u << 20)) { // large inputs: a random 4 KiB block repeated, with a position-dependent byte every 4 KiB
+        std::vector<uint8_t> blk = gen_bytes(seed, 4096);
+        for (size_t off = 0; off < n; off += 4096) {
+            size_t k = n - off < 4096 ? n - off : 4096;
+            memcpy(v.data() + off, blk.data(), k);
+            v[off] = (uint8_t)(1 + (off >> 12) % 251);
+        }
+        return v;
+    }
     sim::Rng r(sim::mix64(seed, 0xF11E));
     for (size_t i = 0; i < n; i++) { v[i] = (uint8_t)r.next(); if (v[i] == 0 && (i % 7)) v[i] = 1; }
     return v;
@@ -381,6 +390,15 @@ void gen(uint64_t seed, int tier, sim::Plan &p) {
             else if (k < 95) { op.kind = OP_SECURE_ZERO; }
             else { op.kind = OP_CLEAN_UP; op.d = r.chance(0.5); }
             p.ops.push_back(op);
+        }
+        if (r.chance(0.012)) {
+            // one very large append (growth arithmetic far from the small-size regime)
+            sim::Op big;
+            big.kind = OP_APPEND_DYN;
+            big.a = r.pick(std::vector<int64_t>{(1 << 20) + 1, 16 << 20, (16 << 20) + 1, (17 << 20) + 123, 20 << 20});
+            big.b = (int64_t)(r.next() >> 2);
+            big.d = r.chance(0.4);
+            p.ops.insert(p.ops.begin() + (long)r.below(p.ops.size() + 1), big);
         }
     }
 }
